@@ -30,7 +30,8 @@ RULE = ("site pairs with every rank combination 0/1/2 x 0/1/2 (cycled), "
         "site pairs = cluster sum; Thole tensor symmetric, traceless and equal to "
         "the undamped tensor when a u^3 >= 45 (includes all pairs at 100 bohr), "
         "gradient consistency l5 = l3 - R l3'/3 for 1e-3 < a u^3 < 35; "
-        "DipoleDipoleInteraction symmetric and consistent with its elements. A "
+        "DipoleDipoleInteraction symmetric and consistent with its elements (small operators in the pair loop; two "
+        "extra processes apply operators of 30..250 sites with 2..8 OpenMP threads, 12 products each). A "
         "pair is non-trivial when a rank >= 1 site is involved; distinct = hash "
         "of both moment sets and a position.")
 
@@ -50,6 +51,11 @@ def run(chk):
     jobs = [lambda s=s: vf.run_proc(
         [h, "--seed", str(chk.seed), "--shard", str(s), "--n", str(per)],
         env=env, timeout=3000) for s in range(shards)]
+    nd = vf.tier_n(chk.tier, 8, 60)
+    env_omp = dict(env, OMP_NUM_THREADS="8")
+    jobs += [lambda s=s: vf.run_proc(
+        [h, "--seed", str(chk.seed), "--shard", str(100 + s), "--ddi", str(nd)],
+        env=env_omp, timeout=3000) for s in range(2)]
     for s, res in enumerate(vf.run_parallel(jobs)):
         if not chk.ingest(res, "c15 shard %d" % s):
             chk.sanitizer["reports"] += 0 if res.rc == 0 else 1
